@@ -71,9 +71,10 @@ def ref_bounds(kind, par):
 
 
 def grad_floor(kind, par, t):
-    """rounding of (mean - theta) before the division by sigma**2: a few ulps at the scale of the operands"""
+    """rounding of (mean - theta) before the division by sigma**2: a few ulps at the scale of the operands (and a few spacings of the
+    sub-normal numbers, where a result of 1e-313 carries ten digits and one of 2e-323 none)"""
     if kind == "gauss":
-        return 4 * np.finfo(float).eps * (abs(par[0]) + abs(t)) / par[1] / par[1]
+        return 4 * np.finfo(float).eps * (abs(par[0]) + abs(t)) / par[1] / par[1] + 1e-322
     return 0.0
 
 
